@@ -52,6 +52,9 @@ _ENG = None
 # When True, repr()/str()/format() of an integer proxy forks over its feasible values and prints the
 # concrete number (needed where the code under analysis compares objects through their repr).
 REPR_CONCRETE = False
+# When set, str()/format() of a proxy returns FORMAT_HOOK(proxy): a placeholder token that the harness maps
+# back to the term (used where the code under analysis renders numbers into text).
+FORMAT_HOOK = None
 
 
 def current():
@@ -547,6 +550,8 @@ class SymNum:
     def __copy__(self): return self
 
     def __repr__(self):
+        if FORMAT_HOOK is not None:
+            return FORMAT_HOOK(self)
         if REPR_CONCRETE and not self.isf and _ENG is not None:
             return repr(concretize(self.e))
         return f"Sym({self.e})"
@@ -554,6 +559,8 @@ class SymNum:
     __str__ = __repr__
 
     def __format__(self, spec):
+        if FORMAT_HOOK is not None:
+            return FORMAT_HOOK(self)
         return format(self.__repr__(), spec) if not (REPR_CONCRETE and not self.isf) else format(concretize(self.e), spec)
 
 
